@@ -200,6 +200,7 @@ type Exec struct {
 	sleep     map[string]footprint
 	fdCache   map[*pbFieldInfo]*PRField
 	freshChoice bool
+	tokenTable  []tokenEntry
 }
 
 type pathEnd struct {
